@@ -8,7 +8,7 @@ from vlib.emlkit import Node, mexc, mrule, mvalidate
 
 PROPERTY = "C04"
 RULE = ("cases are trees: free-form random trees over known and unknown element names (arbitrary Unicode-scalar content, "
-        "arbitrary attributes incl. non-string values, fan-out <= 8, depth up to 100), generator-valid EML trees with 1-6 "
+        "arbitrary attributes incl. non-string values, fan-out mostly <= 8 with occasional nodes of 30-400 children, depth up to 100), generator-valid EML trees with 1-6 "
         "random mutations, mutations of tests/data/eml.xml, and a synthetic rule with an unknown content rule injected into "
         "the in-memory table; every tree goes through validate.tree in fail-fast and in collecting mode, and a sample of its "
         "nodes through validate.node in both modes. distinct = distinct tree values (names, content, attributes, shape); "
@@ -18,7 +18,7 @@ ASSUMPTIONS = [
     "Unicode text = sequences of scalar values (no lone surrogates)",
     "a watchdog firing (30 s per tree) is reported as inconclusive, never as a violation",
 ]
-REQUIRED = ["trees_valid", "trees_invalid", "tree_calls", "node_calls", "config_fault_cases", "depth_ge_50"]
+REQUIRED = ["trees_valid", "trees_invalid", "tree_calls", "node_calls", "config_fault_cases", "depth_ge_50", "fanout_ge_30"]
 EXHAUSTIVE = {"quick": False, "thorough": False}
 
 
@@ -88,6 +88,10 @@ def judge_tree(ctx, t, origin, log=None):
 
     nodes = treegen.all_nodes(t)
     d = snapshot.depth_of(t)
+    fan = max(len(n.children) for n in nodes)
+    ctx.cover["max_fanout"] = max(ctx.cover.get("max_fanout", 0), fan)
+    if fan >= 30:
+        ctx.count("fanout_ge_30")
     ctx.cover["max_depth"] = max(ctx.cover.get("max_depth", 0), d)
     ctx.cover["max_nodes"] = max(ctx.cover.get("max_nodes", 0), len(nodes))
     if d >= 50:
